@@ -14,7 +14,7 @@ def main(tier, only=None):
     chk = vf.Check("C10", tier)
     want = lambda fam: (not only) or fam in only
     thorough = tier != "quick"
-    n_sel, n_junk, n_skip, n_skip2, n_guard = (5, 4, 6, 5, 7) if thorough else (4, 3, 4, 4, 6)
+    n_sel, n_junk, n_skip, n_skip2, n_guard = (5, 4, 6, 4, 7) if thorough else (4, 3, 4, 4, 6)   # skip2 at 5 lines: no verdict in 2400 s since the null-directive test (at_bol) entered the loop
     chk.bounds += [
         "cond: every sequence of exactly %d lines (shorter ones are covered: text lines are neutral) over {#if b, #ifdef N, "
         "#ifndef N, #elif b, #else, #endif, text_i}, b and N in {X,Y} symbolic, definedness of X,Y symbolic, well-formed, "
